@@ -134,8 +134,21 @@ func (g *G) GenRuleSet(p *Profile) []*RuleDef {
 	rs := make([]*RuleDef, n)
 	for i := range rs {
 		rs[i] = g.GenRule(p, i+1, 1)
-		if big && len(rs[i].Secs) > 1 {
-			rs[i].Secs = rs[i].Secs[:1]
+		if big {
+			if len(rs[i].Secs) > 1 {
+				rs[i].Secs = rs[i].Secs[:1]
+			}
+			// the response object has one field per rule id up to 8: beyond that two rules would write the
+			// same field, which is the harness's own interference, not the library's
+			for j := range rs[i].Secs {
+				sec := &rs[i].Secs[j]
+				if sec.Kind == SecConc {
+					sec.Arg &^= 1 << ChAsgField
+				}
+				if sec.Kind == SecSetKind && i+1 > 8 {
+					sec.Kind = SecY
+				}
+			}
 		}
 	}
 	return rs
